@@ -188,3 +188,15 @@ claim('C09', 'model_checking',
       '148 corpus scans are re-run inside TLC.',
       'trusts TLC, the gABI/gnu-hash transcription and the vendored registry; the symbol count is asserted only where a hash table determines it; '
       'relocation tables are asserted by C08; duplicate/absent DT_STRTAB/DT_SYMTAB and overlapping PT_LOADs are outside the quantifier', 'DESIGN.md 5/C09')
+claim('C19', 'fault_enumeration',
+      'TLA+ fault-plan machine over record locations the specification finds itself (spec/Faults.tla over Elf.tla), a constructor outcome model, and walker '
+      'machines for every count/size/offset/link driven loop (spec/FaultWalk.tla: guarded readers satisfy Halts/Linear/NoStall under TLC, the loops as the '
+      'format text implies them are refuted and every refuting fault set is emitted as a witness); every plan is applied to the seed bytes and run against '
+      'ELFFile() and a fixed enumeration battery under read-call, byte and allocation bounds',
+      'TLC enumerates every truncation length, every single-byte substitution of the header region, single and paired field faults with boundary values on '
+      'every located record (Ehdr, Shdr, Phdr, Dyn, Nhdr, SysV/GNU hash, verdef/verdaux/verneed/vernaux) of 4 synthesised and 6 (quick) / 12 (thorough) corpus '
+      'seeds, 20000 random strings, and the minimal fault sets the walker model shows to exceed the bound; the outcome class of the constructor is compared with the '
+      'model, termination is judged by work counters (reads <= 48(size+1), bytes <= 640(size+1), peak <= 1024 size + 1 MiB), not wall time.',
+      'trusts TLC, the record locator (checked by LocateRoundTrip against the writer), the counting stream and tracemalloc sampling (every 8th plan and all witness plans); '
+      'streams are io.BytesIO; the battery covers headers, sections, segments, symbol counts, dynamic tags, notes, hash and version walks - not data(), DWARF or relocations',
+      'DESIGN.md 5/C19')
